@@ -175,19 +175,32 @@ def match_known(sig, known):
     return None
 
 
-def write_replay(prop, sig, payload):
+# set by `./check <Cnn> --replay <file>`: the check is re-run and only asked whether this signature shows again
+REPLAY = {"sig": None, "path": None, "found": False}
+
+
+def write_replay(prop, sig, payload, tier=None):
     d = os.path.join(REPLAYS, prop)
     os.makedirs(d, exist_ok=True)
     h = hashlib.sha1(sig.encode()).hexdigest()[:12]
     path = os.path.join(d, h + ".json")
     with open(path, "w") as f:
-        json.dump({"property": prop, "signature": sig, "replay": payload}, f, indent=1)
+        json.dump({"property": prop, "signature": sig, "tier": tier, "replay": payload}, f, indent=1)
     return path
 
 
 def report(prop, tier, level, violations, coverage, assumptions, t0, extra_known_lines=None):
     """violations: list of dict(sig, replay, detail?). Prints KNOWN-FINDING / VIOLATION lines,
     writes evidence, returns the exit code."""
+    if REPLAY["sig"] is not None:       # replay mode: no evidence, no replay files, one question
+        hit = [v for v in violations if v["sig"] == REPLAY["sig"]]
+        REPLAY["found"] = bool(hit)
+        if hit:
+            log(json.dumps(hit[0].get("replay"), ensure_ascii=False)[:1500])
+            log("VIOLATION property=%s replay=%s  (%s reproduced, %d case(s), %s tier)" % (prop, REPLAY["path"], REPLAY["sig"], len(hit), tier))
+            return 1
+        log("not reproduced in the %s tier: %s" % (tier, REPLAY["sig"]))
+        return 0
     known = load_known(prop)
     by_sig = {}
     for v in violations:
@@ -204,7 +217,7 @@ def report(prop, tier, level, violations, coverage, assumptions, t0, extra_known
     for pat, (k, n) in sorted(known_hit.items()):
         log("KNOWN-FINDING: property=%s %s -- %s (%d case(s) this run)" % (prop, pat, k.get("what_fails", ""), n))
     for sig, vs in sorted(new):
-        path = write_replay(prop, sig, vs[0].get("replay"))
+        path = write_replay(prop, sig, vs[0].get("replay"), tier)
         log("VIOLATION property=%s replay=%s  (%s, %d case(s))" % (prop, path, sig, len(vs)))
     coverage = dict(coverage)
     coverage["known_findings_hit"] = sorted(known_hit.keys())
